@@ -142,9 +142,9 @@ func checkElection(prev, cur *stk.View, opts stk.StakingOpts, h int64, updates [
 		return stk.Violate("election", "too-many", "height %d: %d positive updates but the top validator count is %d", h, npos, opts.Top)
 	}
 	if npos > 0 {
-		flagged := stk.FlaggedAt(cur, h)
+		flagged, maybe := stk.FlaggedAt(cur, h), stk.MaybeFlaggedAt(cur, h)
 		for _, c := range el {
-			if elected[c.Addr] || flagged[c.Addr] {
+			if elected[c.Addr] || flagged[c.Addr] || maybe[c.Addr] {
 				continue
 			}
 			if c.Power > minPower {
